@@ -215,7 +215,7 @@ func TestCheck(t *testing.T) {
 	rep.Require("rejected_option-for-passthrough", 20)
 	rep.Require("rejected_step-limit-for-component", 20)
 	rep.Require("valid_calls_with_one_option_of_two_value_types", 200)
-	n := int64(cfg.Pick(300, 600))
+	n := int64(cfg.Pick(300, 1000))
 	rep.Cases(n, func(idx int64, rng *mon.Rand) {
 		if idx%5 == 3 {
 			for k := 0; k < cfg.Pick(6, 12); k++ {
